@@ -198,6 +198,7 @@ func GenFuzzFamily(w *Writer, r *Rng, t Tier) error {
 		}
 		dumps = append(dumps, DumpTree(c))
 	}
+	GenUnmarshalTargets(w, r.Fork(), dumps[0], "unmarshal-target-all")
 	for i := 0; i < n; i++ {
 		cr := r.Fork()
 		var text, kind, got string
@@ -376,6 +377,53 @@ type hxNamedStruct struct {
 // arbitrary Go values as Unmarshal targets: nil, non-pointers, nil pointers at any depth,
 // unsupported kinds, nested combinations.  Unmarshal must return (an error or nil), never panic.
 func fuzzUnmarshalTarget(r *Rng, d *Dump) (desc string, outcome string) {
+	desc, outcome, _ = unmarshalTargetAt(r, d, -1, -1)
+	return
+}
+
+// unexported TAGGED fields of every shape (the property: an error, never a panic — reflect refuses to
+// set them, and `CanAddr` is true for them where `CanSet` is not: seeded change C19-7)
+type hxU1 struct {
+	s hxNamedStruct `xsel:"."`
+}
+type hxU2 struct {
+	A  string `xsel:"."`
+	in struct {
+		B string `xsel:"."`
+	} `xsel:"."`
+}
+type hxU3 struct {
+	p *hxNamedStruct `xsel:"."`
+}
+type hxU4 struct {
+	l []hxNamedStruct `xsel:"*"`
+}
+type hxU5 struct {
+	L []hxU1 `xsel:"."`
+}
+type hxU6 struct {
+	n int     `xsel:"1"`
+	f float64 `xsel:"1"`
+}
+type hxU7 struct {
+	b  bool    `xsel:"true()"`
+	ps *string `xsel:"."`
+}
+type hxU8 struct {
+	N hxU1 `xsel:"."`
+}
+type hxU9 struct {
+	N *hxU1 `xsel:"."`
+}
+
+// unmarshalTargetAt: target number ti with result shape ri (-1: random); n is the number of targets
+func unmarshalTargetAt(r *Rng, d *Dump, ti, ri int) (desc string, outcome string, n int) {
+	_ = hxU1{}.s
+	_ = hxU2{}.in
+	_ = hxU3{}.p
+	_ = hxU4{}.l
+	_, _ = hxU6{}.n, hxU6{}.f
+	_, _ = hxU7{}.b, hxU7{}.ps
 	type inner struct {
 		A string `xsel:"."`
 	}
@@ -436,10 +484,19 @@ func fuzzUnmarshalTarget(r *Rng, d *Dump) (desc string, outcome string) {
 		{"&struct{unexported}", &struct {
 			x int `xsel:"1"`
 		}{}},
+		{"&hxU1", &hxU1{}}, {"&hxU2", &hxU2{}}, {"&hxU3", &hxU3{}}, {"&hxU4", &hxU4{}}, {"&hxU5", &hxU5{}}, {"&hxU6", &hxU6{}}, {"&hxU7", &hxU7{}},
+		{"&hxU8", &hxU8{}}, {"&hxU9", &hxU9{}}, {"&[]hxU1", &[]hxU1{}}, {"&[]*hxU1", &[]*hxU1{}}, {"&[]hxU8", &[]hxU8{}}, {"hxU1", hxU1{}},
 	}
+	n = len(targets)
 	t := Pick(r, targets)
+	if ti >= 0 {
+		t = targets[ti%n]
+	}
 	var res xsel.Result
-	switch r.Intn(5) {
+	if ri < 0 {
+		ri = r.Intn(5)
+	}
+	switch ri % 5 {
 	case 0:
 		res = xsel.NodeSet{}
 	case 1:
@@ -457,5 +514,17 @@ func fuzzUnmarshalTarget(r *Rng, d *Dump) (desc string, outcome string) {
 		}
 		return "ok"
 	})
-	return fmt.Sprintf("Unmarshal(%T, %s)", res, t.name), outcome
+	return fmt.Sprintf("Unmarshal(%T, %s) result shape %d", res, t.name, ri%5), outcome, n
+}
+
+// GenUnmarshalTargets: EVERY listed target × every result shape (exhaustive; ≈ 60 × 5 cases)
+func GenUnmarshalTargets(w *Writer, r *Rng, d *Dump, fam string) {
+	_, _, n := unmarshalTargetAt(r, d, 0, 0)
+	for ti := 0; ti < n; ti++ {
+		for ri := 0; ri < 5; ri++ {
+			text, got, _ := unmarshalTargetAt(r, d, ti, ri)
+			bad := got == "panic" || got == "nil"
+			w.Line("fuzz", okOnly(!bad, got), map[string]interface{}{"k": "fuzz", "fam": fam, "text": text, "outcome": got, "expect": "ok", "n": 3})
+		}
+	}
 }
